@@ -25,6 +25,7 @@ def run(ctx, sess):
     ctx.rule('C13.5', 'enumeration: sources/signals are listed by one loop over 0..COUNT-1 that tests def.id == i')
     ctx.rule('C13.6', 'string blocks: every copy into a string block is dominated by a compare of its length with the block capacity')
     ctx.rule('C13.8', 'string-block switch: after the reader moves to a fresh string block, no compare mixes a pointer into the old block with one into the new block, nothing is stored through an old-block pointer, the carried-over part ends at the old block\'s cursor, and a string that fills a whole block is rejected')
+    ctx.rule('C13.9', 'every stored item is delivered: in the reader loop that hands user data to the callback, no path leads from a chunk that was read successfully to the next iteration of the loop without passing the callback (only error returns leave the loop early)')
     ctx.rule('C13.7', 'absent strings: a char* field of a user definition is never passed to strlen/memcpy without a NULL test')
     r1(ctx, P)
     r2(ctx, P)
@@ -34,6 +35,7 @@ def run(ctx, sess):
     r6(ctx, P, exc)
     r7(ctx, P, exc)
     r8(ctx, P)
+    r9(ctx, P)
 
 
 def _calls(fn, names, evs=None):
@@ -697,3 +699,50 @@ def r7(ctx, P, exc):
                        'an absent (NULL) string in the user\'s definition is passed to %s(), which dereferences it' % ev.callee),
                        w2.render() if w2 else None)
     ctx.floor('user string uses', n, 2)
+
+
+def r9(ctx, P, rule='C13.9', names=('jls_core_user_data',), minimum=1):
+    """delivery loops do not skip what they read"""
+    n = 0
+    for fn in P.fns_in('src/reader.c'):
+        if fn.name not in names:
+            continue
+        cb = [p['name'] for p in fn.params if p.get('t', '').startswith('p:fn')]
+        if not cb:
+            continue
+        calls_cb = [ev for ev in fn.calls() if ev.callee in cb or (ev.e.get('callee') is None and (ev.e.get('fn') or {}).get('name') in cb)]
+        if not calls_cb:
+            continue
+        lp = loops(fn)
+        reads = [c for c in fn.calls(('jls_core_rd_chunk',)) if any(c.block.id in body for body in lp.values())]
+        for rd in reads:
+            body = None
+            for h, bd in lp.items():
+                if rd.block.id in bd and (body is None or len(bd) < len(body[1])):
+                    body = (h, bd)
+            h, bd = body
+            if not any(c.block.id in bd for c in calls_cb):
+                continue
+            n += 1
+            ctx.saw(fn, 1)
+            # from the successful read: reach the loop header again without the callback
+            from ..guard import zero_edges_of_call
+            okedges = zero_edges_of_call(fn, rd)
+            starts = [(fn.blocks[bid], [i for i, (s_, l_) in enumerate(fn.blocks[bid].succs) if l_ == lab][0]) for (bid, lab) in okedges
+                      if any(l_ == lab for s_, l_ in fn.blocks[bid].succs)]
+            w = None
+            for st in starts or [rd]:
+                def on_event(e2, facts):
+                    if e2 in calls_cb:
+                        return 'stop'
+                    if e2.k == 'ret':
+                        return 'stop'
+                    if e2 is rd or (e2.k == 'call' and e2.callee in ('jls_core_rd_chunk',) and e2.block.id in bd):
+                        return 'target'
+                    return None
+                w = w or find_path(fn, st, on_event, refine=False)
+            ctx.ob(rule, w is None, fn.name, 'every chunk read in the delivery loop reaches the callback', rd.where(),
+                   'no path from the read to the next read bypasses the callback' if w is None else
+                   'a stored item can be skipped silently: a path leads from a successfully read chunk to the next iteration without calling the callback',
+                   w.render() if w else None)
+    ctx.floor('delivery loops', n, minimum)
